@@ -8,6 +8,7 @@
 (*   ReadHeader  pktline::git_request: 4 length bytes, body, parse         *)
 (*   CheckPolicy \                                                         *)
 (*   LoadRepo     > Worker::is_authorized, one action per statement        *)
+(*   LoadDoc     /  (`repo.identity_doc()?`: the document may not load)     *)
 (*   CheckVisible/                                                         *)
 (*   StartUpload upload_pack::upload_pack: protocol-version gate, spawn    *)
 (*   SendData    a chunk of `git upload-pack` output written to the stream *)
@@ -161,6 +162,10 @@ Grammar(r) == {<<"CMD", "SP", "SL">> \o f \o <<"NUL">> \o h \o e :
 (***************************************************************************)
 Policy == {"allow", "block", "none"}           \* row in the policy store for a repository, or no row
 RepoState == [present : BOOLEAN,               \* the repository exists in storage
+              docok   : BOOLEAN,               \* its identity document loads (`repo.identity_doc()` is Ok);
+                                               \* FALSE: refs/rad/id is dangling, or points at a revision whose
+                                               \* document is corrupt or of an unsupported version. private/allow/
+                                               \* delegates then describe the last readable revision.
               private : BOOLEAN,               \* identity document visibility
               allow   : SUBSET Node,           \* allow list of a private repository
               delegates : SUBSET Node]
@@ -174,7 +179,8 @@ Effective(def, pol, r) == IF pol[r] = "none" THEN def ELSE pol[r]   \* policy::C
 Seeded(def, pol, r)    == Effective(def, pol, r) = "allow"
 VisibleTo(rp, r, n)    == ~rp[r].private \/ n \in rp[r].allow \/ n \in rp[r].delegates   \* Doc::is_visible_to
 \* C12's condition
-MayServe(def, pol, rp, r, n) == Seeded(def, pol, r) /\ rp[r].present /\ VisibleTo(rp, r, n)
+\* (a repository whose document cannot be read cannot be shown to be visible to anyone)
+MayServe(def, pol, rp, r, n) == Seeded(def, pol, r) /\ rp[r].present /\ rp[r].docok /\ VisibleTo(rp, r, n)
 
 \* The responder's decision as a function (used by trace validation, and shown below to be what
 \* the state machine computes when the world does not change during the request).
@@ -182,6 +188,7 @@ Decision(def, pol, rp, n, res) ==
     IF ~res.ok THEN "refused:header"
     ELSE IF ~Seeded(def, pol, res.rid) THEN "refused:policy"
     ELSE IF ~rp[res.rid].present THEN "refused:storage"
+    ELSE IF ~rp[res.rid].docok THEN "refused:identity"
     ELSE IF ~VisibleTo(rp, res.rid, n) THEN "refused:visibility"
     ELSE IF ~res.v2 THEN "refused:protocol"
     ELSE "served"
@@ -189,7 +196,7 @@ Decision(def, pol, rp, n, res) ==
 (***************************************************************************)
 (*                         Responder state machine                         *)
 (***************************************************************************)
-VARIABLES pc,        \* "idle" | "header" | "parsed" | "policy-ok" | "repo-ok" | "authorized" | "serving" | "closed"
+VARIABLES pc,        \* "idle" | "header" | "parsed" | "policy-ok" | "repo-ok" | "doc-ok" | "authorized" | "serving" | "closed"
           remote,    \* requesting node of the open stream
           hdr,       \* header the peer sends on it
           req,       \* result of reading the header
@@ -197,12 +204,12 @@ VARIABLES pc,        \* "idle" | "header" | "parsed" | "policy-ok" | "repo-ok" |
           servedRid, \* repository whose git directory upload-pack runs in
           sent,      \* ghost: bytes of repository data written to the stream
           outcome,   \* "-" | "served" | "refused:<why>" | "crash"
-          snap       \* ghost: world as read by the authorisation steps [pol, present, visible]
+          snap       \* ghost: world as read by the authorisation steps [seeded, present, docok, visible]
 stream == <<pc, remote, hdr, req, authRid, servedRid, sent, outcome, snap>>
 vars == <<world, stream>>
 
 NoHdr == [len |-> "eq4", body |-> <<>>]
-NoSnap == [seeded |-> FALSE, present |-> FALSE, visible |-> FALSE]
+NoSnap == [seeded |-> FALSE, present |-> FALSE, docok |-> FALSE, visible |-> FALSE]
 
 StreamInit == /\ pc = "idle" /\ remote = NoNode /\ hdr = NoHdr /\ req = ErrInvalid
               /\ authRid = NoRid /\ servedRid = NoRid /\ sent = 0 /\ outcome = "-" /\ snap = NoSnap
@@ -213,6 +220,13 @@ SetPolicy(r, p) == /\ Dynamic
                    /\ policy[r] # p
                    /\ policy' = [policy EXCEPT ![r] = p]
                    /\ UNCHANGED <<default, repo, stream>>
+
+\* The environment: the repository's identity head moves (a fetch, `rad id`, disk trouble) to a
+\* revision whose document this node cannot read, or back to one it can.
+SetDoc(r, b) == /\ Dynamic
+                /\ repo[r].present /\ repo[r].docok # b
+                /\ repo' = [repo EXCEPT ![r].docok = b]
+                /\ UNCHANGED <<default, policy, stream>>
 
 Open(n, h) == /\ pc = "idle"
               /\ pc' = "header" /\ remote' = n /\ hdr' = h
@@ -243,8 +257,18 @@ LoadRepo == /\ pc = "policy-ok"
             /\ UNCHANGED <<world, remote, hdr, req, authRid, servedRid, sent>>
 
 \* `if !doc.is_visible_to(&remote.into()) { Err(Unauthorized) } else { Ok(()) }`
-CheckVisible == /\ pc = "repo-ok"
-                /\ LET v == IF Variant = "skip-visibility" THEN TRUE ELSE VisibleTo(repo, req.rid, remote) IN
+\* `let doc = repo.identity_doc()?;` -- the error is propagated: refusal. Variant "fail-open-doc"
+\* is a responder that treats a document it cannot load as "nothing to check".
+LoadDoc == /\ pc = "repo-ok"
+           /\ LET d == repo[req.rid].docok IN
+              /\ snap' = [snap EXCEPT !.docok = d]
+              /\ IF d \/ Variant = "fail-open-doc" THEN pc' = "doc-ok" /\ outcome' = outcome
+                 ELSE Refuse("refused:identity")
+           /\ UNCHANGED <<world, remote, hdr, req, authRid, servedRid, sent>>
+
+CheckVisible == /\ pc = "doc-ok"
+                /\ LET v == IF Variant = "skip-visibility" \/ (Variant = "fail-open-doc" /\ ~repo[req.rid].docok)
+                            THEN TRUE ELSE VisibleTo(repo, req.rid, remote) IN
                    /\ snap' = [snap EXCEPT !.visible = VisibleTo(repo, req.rid, remote)]
                    /\ IF v THEN pc' = "authorized" /\ authRid' = req.rid /\ outcome' = outcome
                       ELSE Refuse("refused:visibility") /\ authRid' = authRid
@@ -261,7 +285,7 @@ StartUpload == /\ pc = "authorized"
 
 \* Variant "early-data": something (a banner, an advertisement) is written before the decision.
 SendData == /\ \/ pc = "serving"
-               \/ Variant = "early-data" /\ pc \in {"parsed", "policy-ok", "repo-ok"}
+               \/ Variant = "early-data" /\ pc \in {"parsed", "policy-ok", "repo-ok", "doc-ok"}
             /\ sent < MaxSent
             /\ sent' = sent + 1
             /\ UNCHANGED <<world, pc, remote, hdr, req, authRid, servedRid, outcome, snap>>
@@ -277,7 +301,7 @@ Close == /\ pc = "closed"
          /\ authRid' = NoRid /\ servedRid' = NoRid /\ sent' = 0 /\ outcome' = "-" /\ snap' = NoSnap
          /\ UNCHANGED world
 
-Step == ReadHeader \/ CheckPolicy \/ LoadRepo \/ CheckVisible \/ StartUpload \/ SendData \/ Finish \/ Close
+Step == ReadHeader \/ CheckPolicy \/ LoadRepo \/ LoadDoc \/ CheckVisible \/ StartUpload \/ SendData \/ Finish \/ Close
 
 (***************************************************************************)
 (*                              Properties                                 *)
@@ -286,9 +310,9 @@ Decided == pc \in {"serving", "closed"}
 Serving == pc = "serving" \/ outcome = "served"
 
 \* C12 (1): data of a repository flows only if, when the responder looked, the repository was
-\* seeded, present and visible to the requester.
+\* seeded, present, its identity document readable, and visible to the requester.
 C12_ServeOnlyIfAllowed ==
-    (Serving \/ sent > 0) => snap.seeded /\ snap.present /\ snap.visible
+    (Serving \/ sent > 0) => snap.seeded /\ snap.present /\ snap.docok /\ snap.visible
 \* ... and, when nothing changes underneath the request, "when the responder looked" is "now".
 C12_ServeOnlyIfAllowedNow ==
     (~Dynamic /\ (Serving \/ sent > 0)) => servedRid # NoRid /\ MayServe(default, policy, repo, servedRid, remote)
@@ -314,7 +338,7 @@ MachineIsDecision ==
 MachineIsDecisionServing ==
     (~Dynamic /\ pc = "serving") => Decision(default, policy, repo, remote, req) = "served"
 
-TypeOK == /\ pc \in {"idle", "header", "parsed", "policy-ok", "repo-ok", "authorized", "serving", "closed"}
+TypeOK == /\ pc \in {"idle", "header", "parsed", "policy-ok", "repo-ok", "doc-ok", "authorized", "serving", "closed"}
           /\ sent \in 0..MaxSent
           /\ default \in {"allow", "block"}
           /\ policy \in [Rid -> Policy]
